@@ -51,6 +51,11 @@ def cond_dict(level, c):
         if t == "match_value":
             d["value"] = uncps(c["s"])
         return d
+    if level == "field" and t in ("include_re", "exclude_re"):
+        import re
+
+        return {"type": t[:-3] + "_fields", "mode": "re",
+                "fields": [("(?i)" if p["ci"] else "") + re.escape(uncps(p["text"])) + ("$" if p["end"] else "") for p in c["pats"]]}
     if level == "field" and t in ("include", "exclude"):
         return {"type": t + "_fields", "fields": [uncps(n) for n in c["names"]]}
     if t == "applied":
